@@ -50,3 +50,9 @@ claim('C10', 'Coq theorems over arbitrary field lists (bit/byte functions) and e
       'field counts); bits2integer_bytes2bits and the BytesInteger = Bitwise(BitsInteger(8n)) law for every width. Both code paths (pre-read and '
       'streaming) are run on the library and on the extracted model and compared with big-integer arithmetic, exhaustively for 8-bit regions.',
       'DESIGN.md 6/C10')
+claim('C07', 'Coq theorems on the scope chain for every context + induction on expressions + correspondence + constructed-shape oracle',
+      'Scope-chain theorems (each _ one scope outward, _root outermost, _params everywhere, flags one-hot per entry point, _index current and '
+      'inherited, siblings visible) hold for every context; eval_mode_independent (induction on the expression) shows every flag-free '
+      'expression evaluates identically in parse, build and sizeof. The suite enumerates nesting shapes to depth 3 (4 in thorough) of all five '
+      'scope-pushing classes with repetitions and checks every probe in parse, build and sizeof on the library and against the extracted '
+      'model; one documented LazyStruct restriction is a recorded known finding.', 'DESIGN.md 6/C07')
